@@ -5,7 +5,7 @@ CONSTANTS
   OpenKinds = {"Device"}  DeclKindsOn = {"OpRegion", "Event"}
   Forms = {}
   FieldKinds = {"Field", "IndexField", "BankField"}
-  ScopeOn = TRUE  FieldOn = TRUE  MethodFlags = {}  StmtKinds = {}  MaxStmts = 0
+  ScopeOn = FALSE  FieldOn = TRUE  MethodFlags = {}  StmtKinds = {}  MaxStmts = 0
   Widths = {}
   Excluded = {"D1", "D1b", "D2", "D2c", "D3", "D5", "D7", "D8", "D9", "D10", "D11"}
   Emit = TRUE  Bug = ""
